@@ -43,7 +43,7 @@ Definition of_opt {A} (why:string) (o:option A) (t:trace) : res A :=
 Inductive outcome := ODone (out:string) | OStuck (why:string) | OFuel.
 
 (** ** Operators *)
-Inductive binop := OAdd | OSub | OMul | OSAdd | OLt | OGt | OLe | OGe | OAnd | OOr.
+Inductive binop := OAdd | OSub | OMul | ODiv | OSAdd | OLt | OGt | OLe | OGe | OAnd | OOr.
 
 (** Go [int] on the 64-bit targets: two's complement wrapping *)
 Definition wrap64 (z:Z) : Z := ((z + 9223372036854775808) mod 18446744073709551616 - 9223372036854775808)%Z.
